@@ -446,3 +446,48 @@ def _rand_type(rng, depth, key):
     if c == 'boxstr':
         return wrap(rng.choice(['box', 'rc', 'arc', 'cow']), ('text', 'str'))
     raise ValueError(c)
+
+
+def wire_min(t):
+    """Least number of bytes an encoding of t can have."""
+    k = t[0]
+    if k == 'prim':
+        return PRIM_WIDTH[t[1]]
+    if k == 'unit':
+        return 0
+    if k == 'raw':
+        return {'ipv4': 4, 'ipv6': 16, 'oid': 12}[t[1]]
+    if k in ('text', 'seq'):
+        return 4
+    if k == 'array':
+        return t[1] * wire_min(t[2])
+    if k == 'prod':
+        kind = t[1]
+        skips = ()
+        if isinstance(kind, tuple) and kind[0] == 'struct':
+            skips = kind[3]
+        elif isinstance(kind, tuple) and kind[0] == 'variant':
+            skips = kind[2]
+        return sum(wire_min(x) for i, x in enumerate(t[2]) if not (i < len(skips) and skips[i]))
+    if k == 'sum':
+        return 1 + min(wire_min(x) for x in t[2])
+    if k == 'wrap':
+        return wire_min(t[2])
+    raise ValueError(t)
+
+
+def unbounded_on_hostile_input(t):
+    """A collection whose elements take no bytes on the wire but do occupy memory (e.g.
+    Vec<RefCell<()>>, Vec<RangeInclusive<()>>): check_zst lets it through, so a bare length
+    prefix of 2^32-1 makes the real decoder (and the model) loop and allocate for billions of
+    elements.  C07 excludes such types from its family; the checks never feed them hostile
+    lengths."""
+    for s in subterms(t):
+        if s[0] == 'seq':
+            e = s[2]
+            kt = e[2][0] if s[1] in MAP_KINDS else e
+            if wire_min(e) == 0 and not mem_zst(kt):
+                return True
+        if s[0] == 'array' and s[1] > 0 and unbounded_on_hostile_input(s[2]):
+            return True
+    return False
